@@ -184,6 +184,11 @@ def check_value_root(chk, cf, o, lv, loc):
     marks = [e for e in cf.net_effects(o) if e["kind"] == "cell" and e["fam"] == "access"]
     chk.ob("C05.pay-mark", f"{cf.K}: the exit that pays the value also stores the new access level",
            len(marks) >= 1, f"{len(marks)} access store(s)", loc)
+    # ... and the stored level never drops below ROOT again (otherwise the value is paid twice)
+    from .c01 import check_level
+    from .c04 import _Wrap
+    for e in marks:
+        check_level(None, _Wrap(chk, "C05.no-repay"), cf, o, e, lv)
 
 
 def check_discovery(chk, cf, o, loc):
